@@ -298,7 +298,7 @@ package shimagent
 //@     invariant forall(j, 0 <= j && j < len(keysInAgent), keysInAgent[j] != nil && akBlob(keysInAgent[j]) == blobid(asKey(keysInAgent[j])))
 //@     invariant forall(i, 0 <= i && i < len(keys), keys[i] != nil &&
 //@       (exists(h#bytes, h in dom(s.certs), akBlob(keys[i]) == blobid(asKey(s.certs[h]))) ||
-//@        exists(j, 0 <= j && j <= rangeindex, akBlob(keys[i]) == blobid(asKey(keysInAgent[j])) && (s.noUpstreamSSHCACert ==> !hiddenBlob(blobid(asKey(keysInAgent[j]))))))
+//@        exists(j, 0 <= j && j <= rangeindex, akBlob(keys[i]) == blobid(asKey(keysInAgent[j])) && (s.noUpstreamSSHCACert ==> !hiddenBlob(blobid(asKey(keysInAgent[j])))))))
 //@     invariant forall(j, 0 <= j && j <= rangeindex,
 //@       (!(certBlob(blobid(asKey(keysInAgent[j]))) && parseOKid(blobid(asKey(keysInAgent[j])))) ||
 //@        (!(sha(blobid(asKey(keysInAgent[j]))) in dom(s.upstreamSSHCACertCache)) && !(s.noUpstreamSSHCACert && hiddenBlob(blobid(asKey(keysInAgent[j])))))) ==>
